@@ -131,7 +131,7 @@ func ParseCFF2(src []byte) (*CFF2, error) {
 	// parse variation store
 	if tp.vstore != 0 {
 		// See https://learn.microsoft.com/en-us/typography/opentype/spec/cff2#variationstore-data-contents
-		if E, L := int(tp.vstore)+2, len(src); L < E {
+		if E, L := int(tp.vstore)+2, len(src); tp.vstore < 0 || L < E {
 			return nil, fmt.Errorf("reading variation store: EOF: expected length: %d, got %d", E, L)
 		}
 		size := int(binary.BigEndian.Uint16(src[tp.vstore:]))
